@@ -1846,7 +1846,7 @@ Lemma sinv_clq_nil s l : SInv s -> SInv (set_clq s l []).
 Proof.
   intros [C K]. split; [|exact K].
   destruct C as [T So C' Q P B N Z]. split; auto.
-  intros l' x Hx. gs. ssimpl. unfold fupd in Hx. destruct (l' =? l); eauto. contradiction.
+  intros l' x Hx. gs. ssimpl. unfold fupd in Hx. destruct (l' =? l); eauto; contradiction.
 Qed.
 
 Lemma sinv_cb_enter s h sig : SInv s -> SInv (cb_enter s h sig).
